@@ -91,15 +91,18 @@ def stepReq (m : Mode) (parse : Nat → Option Nat) (up : Nat → Nat) (s : Stat
     (r.1, r.2.1)
   | .delete h => (⟨set s.files h none, set s.cache h none⟩, none)
   | .move h h' =>
-    match s.files h with
-    | none => (s, none)
-    | some f =>
-      if h = h' then (s, none)
+    -- the request reads the item first (`discover`); only an item that can be read is moved; its entry (which
+    -- exists after the read) is renamed along and replaces whatever was stored under the destination name
+    let r := get m parse s h
+    match r.2.1, r.1.files h with
+    | some _, some f =>
+      if h = h' then (r.1, none)
       else
-        let c := match s.cache h with
-          | some e => set (set s.cache h' (some e)) h none
-          | none => s.cache                -- FileNotFoundError: the destination's old entry stays
-        (⟨set (set s.files h' (some f)) h none, c⟩, none)
+        let c := match r.1.cache h with
+          | some e => set (set r.1.cache h' (some e)) h none
+          | none => r.1.cache
+        (⟨set (set r.1.files h' (some f)) h none, c⟩, none)
+    | _, _ => (r.1, none)
   | .moveOut h => (⟨set s.files h none, set s.cache h none⟩, none)       -- the entry (if any) went along
   | .moveIn h f e => (⟨set s.files h (some f), match e with | some x => set s.cache h (some x) | none => s.cache⟩, none)
   | .replaceAll items sub =>
@@ -130,7 +133,9 @@ def refReq (parse : Nat → Option Nat) (files : Nat → Option File) : Req → 
   | .move h h' =>
     match files h with
     | none => (files, none)
-    | some f => if h = h' then (files, none) else (set (set files h' (some f)) h none, none)
+    | some f =>
+      if (parse f.content).isNone then (files, none)
+      else if h = h' then (files, none) else (set (set files h' (some f)) h none, none)
   | .moveOut h => (set files h none, none)
   | .moveIn h f _ => (set files h (some f), none)
   | .replaceAll items _ => (ofList items, none)
